@@ -20,6 +20,7 @@ def main(argv=None):
     s.add_argument('what', choices=['determinism', 'mutants'])
     s.add_argument('--props', default='')
     s.add_argument('--runs', type=int, default=None)
+    s.add_argument('--only', default=None)
     a = ap.parse_args(argv)
     from . import driver
     if a.cmd == 'check':
